@@ -4,7 +4,7 @@ set -e
 cd "$(dirname "$0")"
 if [ ! -x .venv312/bin/python ]; then
   /venv/bin/python -m venv .venv312
-  PIP_NO_INDEX=1 .venv312/bin/pip install -q --no-index --find-links /opt/veriftools/wheels deal icontract >/dev/null 2>&1 || true
+  PIP_NO_INDEX=1 .venv312/bin/pip install -q --no-index --find-links /opt/veriftools/wheels deal icontract z3-solver >/dev/null 2>&1 || true
   echo "import site; site.addsitedir('/venv/lib/python3.12/site-packages')" > .venv312/lib/python3.12/site-packages/_repo_deps.pth
 fi
 .venv312/bin/python -c "import sympy, logzero, tabulate" 
